@@ -8,6 +8,8 @@ for sid in $SEEDS; do
     # a seed made against an older tree may have been re-created for the current one
     P=/verif/seeded/$sid/patch.diff; [ -f /verif/seeded/$sid/patch_rebased.diff ] && P=/verif/seeded/$sid/patch_rebased.diff
     extra=""; [ "$sid" = "C07-4" ] && extra="C14"
+    # a crash that only a valid history reaches shows in the engine that runs histories
+    [ "$sid" = "C07-17" ] && extra="C03"
     res=$(tools/altcheck.sh $P $prop $extra | tr '\n' ' ')
     echo "$sid $res"
 done
